@@ -221,10 +221,25 @@ def emit_layer(L: J, c: str) -> str:
         if L.get("pstack"):
             x += f'<PROT-STACK-SNREF SHORT-NAME={quoteattr(L["pstack"])}/>'
     if L.get("parents"):
-        x += "<PARENT-REFS>" + "".join(
-            _ref("PARENT", r, f' xsi:type="{r.get("xt", "BASE-VARIANT")}-REF"')
-            for r in L["parents"]) + "</PARENT-REFS>"
+        x += "<PARENT-REFS>" + "".join(_parent_ref(r) for r in L["parents"]) + "</PARENT-REFS>"
     return x + f"</{tag}>"
+
+
+def _parent_ref(r: J) -> str:
+    x = _ref("PARENT", r, f' xsi:type="{r.get("xt", "BASE-VARIANT")}-REF"')
+    ni = r.get("ni") or {}
+    if not (ni.get("dops") or ni.get("tables")):
+        return x
+    x = x[:-2] + ">"
+    if ni.get("dops"):
+        x += "<NOT-INHERITED-DOPS>" + "".join(
+            f"<NOT-INHERITED-DOP><DOP-BASE-SNREF SHORT-NAME={quoteattr(n)}/></NOT-INHERITED-DOP>"
+            for n in ni["dops"]) + "</NOT-INHERITED-DOPS>"
+    if ni.get("tables"):
+        x += "<NOT-INHERITED-TABLES>" + "".join(
+            f"<NOT-INHERITED-TABLE><TABLE-SNREF SHORT-NAME={quoteattr(n)}/></NOT-INHERITED-TABLE>"
+            for n in ni["tables"]) + "</NOT-INHERITED-TABLES>"
+    return x + "</PARENT-REF>"
 
 
 def emit_doc(doc: J, reverse_layers: bool = False) -> str:
@@ -478,7 +493,7 @@ class Resolver:
                     self.table_obj[tm] = t
                     for rw in t["rows"]:
                         self.table_of_row[reg(rw["id"])] = tm
-        self._parents: Dict[str, List[str]] = {}
+        self._parents: Dict[str, List[Tuple[str, J]]] = {}
         self._views: Dict[str, Dict[str, Dict[str, List[str]]]] = {}
 
     # -- ODXLINK -----------------------------------------------------------
@@ -516,12 +531,16 @@ class Resolver:
 
     # -- inheritance -------------------------------------------------------
     def parents(self, l: str) -> List[str]:
+        return [p for p, _ in self.parent_refs(l)]
+
+    def parent_refs(self, l: str) -> List[Tuple[str, J]]:
+        """(parent layer, its PARENT-REF) in document order"""
         if l not in self._parents:
-            out: List[str] = []
+            out: List[Tuple[str, J]] = []
             for r in self.layer[l].get("parents", []):
                 names = {self.layer_of_marker.get(m) for m in self.resolve_id(r, l)}
                 if len(names) == 1 and None not in names:
-                    out.append(names.pop())  # type: ignore
+                    out.append((names.pop(), r))  # type: ignore
             self._parents[l] = out
         return self._parents[l]
 
@@ -553,9 +572,11 @@ class Resolver:
         v: Dict[str, Dict[str, List[str]]] = {}
         for cat in local:
             merged: Dict[str, List[str]] = {}
-            for p in self.parents(l):
+            for p, pref in self.parent_refs(l):
+                # what this PARENT-REF (and only this one) declares NOT-INHERITED
+                ni = (pref.get("ni") or {}).get("tables" if cat == "tables" else "dops", [])
                 for name, ms in self.view(p)[cat].items():
-                    if name in local[cat]:
+                    if name in local[cat] or name in ni:
                         continue
                     for m in ms:
                         _add(merged, name, m)
@@ -688,6 +709,17 @@ class Topo:
         # one kind of field per database: an inherited STATIC-FIELD and a local END-OF-PDU-FIELD
         # of the same short name are a value-inheritance question (C09), not a C10 one
         self.field_kind = "SFIELD"
+        self.ni: Dict[Tuple[str, str], Dict[str, List[str]]] = {}  # (child, parent) -> lists
+
+    def visible_only(self, t: J, stem: str) -> List[str]:
+        """the <stem>_only_* names visible in t after inheritance (NOT-INHERITED applied)"""
+        out = [f"{stem}_only_{t['name']}"]
+        for pn in t["parents"]:
+            ni = self.ni.get((t["name"], pn), {}).get("tables" if stem == "tab" else "dops", [])
+            for n in self.visible_only(self.get(pn), stem):
+                if n not in ni and n not in out:
+                    out.append(n)
+        return out
 
     def get(self, name: str) -> J:
         return next(t for t in self.layers if t["name"] == name)
@@ -779,6 +811,26 @@ def make_topology(r: random.Random, force_leak: bool = False) -> Topo:
                 s = r.choice(sds)
                 if s["name"] not in t["parents"]:
                     t["imports"].append(s["name"])
+        # NOT-INHERITED lists of some PARENT-REFs: names the parent offers (they are hidden from
+        # the child and its descendants unless another parent offers them too) and names that only
+        # ANOTHER parent offers (no effect at all: a list belongs to its PARENT-REF)
+        for t in tp.layers:
+            for pn in t["parents"]:
+                if r.random() >= 0.4:
+                    continue
+                p = tp.get(pn)
+                through = [p] + tp.ancestors(p)
+                others = [a for q in t["parents"] if q != pn
+                          for a in [tp.get(q)] + tp.ancestors(tp.get(q)) if a not in through]
+                lst: Dict[str, List[str]] = {"dops": [], "tables": []}
+                for _ in range(r.choice([1, 1, 2])):
+                    src = r.choice(others) if others and r.random() < 0.5 else r.choice(through)
+                    stem = r.choice(["dop", "dop", "st", "tab"])
+                    nm = f"{stem}_only_{src['name']}"
+                    key = "tables" if stem == "tab" else "dops"
+                    if nm not in lst[key]:
+                        lst[key].append(nm)
+                tp.ni[(t["name"], pn)] = lst
         if force_leak and not leak_pairs(tp):
             # make one: importer A and a non-importing sibling B in one container, S elsewhere
             ok = False
@@ -860,11 +912,10 @@ class Builder:
     def visible_names(self, t: J, cat: str) -> List[str]:
         """short names of category DOP / ST / TAB visible in t after inheritance"""
         stem = {"DOP": "dop", "ST": "st", "TAB": "tab"}[cat]
-        out = [f"{stem}_x", f"{stem}_only_{t['name']}"]
+        out = [f"{stem}_x"] + self.tp.visible_only(t, stem)
         if cat == "DOP":
-            out.append("dop_y")
+            out.insert(2, "dop_y")
         for a in self.tp.ancestors(t):
-            out.append(f"{stem}_only_{a['name']}")
             if a["kind"] == "ECU-SHARED-DATA":
                 out.append(f"{stem}_imp")
         if t["kind"] == "ECU-SHARED-DATA" or self.shadow[t["name"]]:
@@ -966,6 +1017,8 @@ class Builder:
                                            else ["CONTAINER", p["cont"]])
             pr = rid(tp.lid(p), dr)
             pr["xt"] = p["kind"]
+            if (t["name"], pn) in tp.ni:
+                pr["ni"] = tp.ni[(t["name"], pn)]
             L["parents"].append(pr)
         for sn in t["imports"]:
             s = tp.get(sn)
@@ -1178,7 +1231,14 @@ def inject(r: random.Random, model: J, tp: Topo, fclass: str) -> Optional[J]:
             anc = [a["name"] for a in tp.ancestors(t)] + [t["name"]]
             unrelated = [x for x in tp.layers if x["name"] not in anc and
                          x["name"] not in t["imports"]]
-            if stem and unrelated and r.random() < 0.6:
+            hidden = [] if not stem else [
+                f"{stem}_only_{a['name']}" for a in tp.ancestors(t)
+                if f"{stem}_only_{a['name']}" not in tp.visible_only(t, stem) and
+                a["name"] not in t["imports"]]  # (IMPORTed as well: the unclear reading)
+            if hidden and r.random() < 0.7:
+                variant = "hidden-by-not-inherited"
+                st.ref["sn"] = r.choice(hidden)
+            elif stem and unrelated and r.random() < 0.6:
                 variant = "unrelated-layer"
                 st.ref["sn"] = f"{stem}_only_{r.choice(unrelated)['name']}"
             else:
